@@ -828,13 +828,13 @@ func tarHeader(content *files.Content, preferredModTimes ...time.Time) (*tar.Hea
 	}
 
 	switch {
-	case content.IsDir() || fm&fs.ModeDir != 0:
-		h.Typeflag = tar.TypeDir
-		h.Name = files.AsExplicitRelativePath(content.Destination)
 	case content.Type == files.TypeSymlink || fm&fs.ModeSymlink != 0:
 		h.Typeflag = tar.TypeSymlink
 		h.Name = files.AsExplicitRelativePath(content.Destination)
 		h.Linkname = content.Source
+	case content.IsDir() || fm&fs.ModeDir != 0:
+		h.Typeflag = tar.TypeDir
+		h.Name = files.AsExplicitRelativePath(content.Destination)
 	case fm&fs.ModeDevice != 0:
 		if fm&fs.ModeCharDevice != 0 {
 			h.Typeflag = tar.TypeChar
